@@ -110,7 +110,7 @@ CLAIMED = {
         technique="Lean 4 proof (Mathlib ℚ, zpow, half-even rounding uniqueness) + differential correspondence vs Fraction",
     ),
     "C18": dict(
-        text="Lean 4 theorems over the namespace state machine (per-kind views + namespace + object name/parent + freeze) of Module and "
+        text="The invariant theorems quantify over all operation sequences, including those in which one identity is presented with different kinds — which is what editing a held Signal's vis amounts to (revis operations in the ops stream; coherence judged against the kind filed). Lean 4 theorems over the namespace state machine (per-kind views + namespace + object name/parent + freeze) of Module and "
         "Bundle: coherence is an invariant of every operation and hence of every finite sequence of setattr/add/get/getattr/delattr/"
         "elaborate; refinement to a name->object map; rejections (reserved names, non-HDL values, deletion, post-elaboration additions, "
         "second name for one object) leave the state unchanged; every natively answered name is reserved (table theorem over names "
@@ -134,7 +134,7 @@ CLAIMED = {
         technique="Lean 4 proof (mutual structural induction over bundle trees, table theorem) + differential correspondence",
     ),
     "C09": dict(
-        text="Lean 4 theorems: the readable name format k=v ... (strings quoted with escaped quotes/backslashes, numbers and None as "
+        text="reset_starts_afresh: after generator.cache.reset() every call, however nested, returns a module made after the reset and equal calls agree again (run_newer by mutual induction; reset stream). Lean 4 theorems: the readable name format k=v ... (strings quoted with escaped quotes/backslashes, numbers and None as "
         "atoms) is injective in the parameter values for all strings (proved by exhibiting the parser: unescape∘escape = id, "
         "space-free atoms split uniquely); over the generator-cache model: a cached call returns the identical module without "
         "running the body or changing state, a completed call is cached (memoisation for any call order and nesting), a "
@@ -246,7 +246,7 @@ CLAIMED = {
         "target, an open port, a connection to a port that does not exist, a connection of another width or without a width (an index out of range, an empty or zero-step slice at any depth), "
         "a signal the module does not declare: each, planted anywhere, makes the composition refuse; compared with elaborate + to_proto by the module_pipe stream (planted faults of each class). "
         "Edits made after a completed export (reconnect to another width, widen a child's port, disconnect) are exported as they are: three recorded known findings (known_findings.json, "
-        "after-export:*), the root cause of the C08 repair-and-retry entries. design_accepts_only_wellformed: across the hierarchy, a package comes back only if every instance of every module is well-formed against what its target was exported as. module_elaboration_accepts: conversely nothing well-formed is refused by the five passes (with C03's resolve_total) — the composed passes accept exactly the well-formed F1 modules. module_pipeline_accepts_iff: for modules whose indices are integers or unit-step ranges, passes and exporter return a module iff every instance is well-formed.",
+        "after-export:*), the root cause of the C08 repair-and-retry entries. design_accepts_only_wellformed: across the hierarchy, a package comes back only if every instance of every module is well-formed against what its target was exported as. module_elaboration_accepts: conversely nothing well-formed is refused by the five passes (with C03's resolve_total) — the composed passes accept exactly the well-formed F1 modules. module_pipeline_accepts_iff: for modules whose indices are integers or unit-step ranges, passes and exporter return a module iff every instance is well-formed. foreign_owner_rejected: with Orphanage's owner check in front (pipelineO), an object of another module or of none anywhere inside a connection makes the composition refuse. arrays_accepted_only_wellformed: with ArrayFlattener inside (pipelineA), an array is of something defined, has at least one element, and every connection is as wide as its port or n times as wide.",
         note="Of the checking passes MarkModules is not modelled in Lean (ConnTypes, Orphanage and ResolvePortRefs' refusals are); that the modelled checks together cover every "
         "fault class rests on the mutation correspondence. Clashing module names are an export-level fault: elaborate() alone is not required to notice them.",
         ref="DESIGN.md §6 C02",
@@ -307,7 +307,7 @@ CLAIMED = {
         technique="Lean 4 proof (permutation invariance of sorting by an identifying key; DFS result independent of neighbour order) + multi-interpreter differential runs",
     ),
     "C11": dict(
-        text="pipeline_output_roundtrips: whatever the composed pass list (ModulePipe.lean: Orphanage, ConnTypes, SliceResolver, repeats) and export_module return for a module of fragment F1 has the Shape the round-trip theorem asks for, hence is imported without error and exported back identically — the round trip of C11 composed with the elaborator, no hypothesis on the package but where it came from. Proved in Lean for connection targets of any nesting: import (slice.top inclusive -> Python stop, concatenation parts reversed) "
+        text="design_output_roundtrips: the same for every module of the package of an F1 design. pipeline_output_roundtrips: whatever the composed pass list (ModulePipe.lean: Orphanage, ConnTypes, SliceResolver, repeats) and export_module return for a module of fragment F1 has the Shape the round-trip theorem asks for, hence is imported without error and exported back identically — the round trip of C11 composed with the elaborator, no hypothesis on the package but where it came from. Proved in Lean for connection targets of any nesting: import (slice.top inclusive -> Python stop, concatenation parts reversed) "
         "followed by export is the identity on well-formed targets (target_roundtrip); the table parts of the round trip — prefix maps, "
         "ideal-primitive name maps, pulse-source parameter renaming: importer = inverse of exporter on every entry — are decide-theorems "
         "over tables regenerated from exporter and importer on every run; for whole modules (module_roundtrip over the model of import_module / "
